@@ -59,8 +59,14 @@ def class_observables(name, model, shape):
         o.append(('watson.mode projector', m[..., :, None] * m[..., None, :].conj(), -3, True))
         o.append(('watson.concentration', model.complex_watson.concentration, -1, False))
     if name == 'cbmm':
-        o.append(('bingham.covariance', model.complex_bingham.covariance, -3, True))
-        o.append(('bingham.eigenvalues', np.sort(model.complex_bingham.covariance_eigenvalues, axis=-1), -2, False))
+        # the concentrations kappa solve grad log c(kappa) = scatter eigenvalues, kappa ~ -1/lambda: an absolute rounding
+        # error of the scatter (1e-16 .. 1e-11 after a few iterations) is amplified by 1/lambda^2, so "equal up to rounding"
+        # is judged on the one-to-one image 1/(1 - kappa) in (0, 1] (~ the scatter eigenvalue) with the same eigenvectors
+        U, kap = model.complex_bingham.covariance_eigenvectors, model.complex_bingham.covariance_eigenvalues
+        img = 1.0 / (1.0 - np.minimum(kap, 0.0))
+        o.append(('bingham.covariance (eigenvalues mapped to 1/(1-kappa))',
+                  np.einsum('...de,...e,...fe->...df', U, img, U.conj()), -3, False))
+        o.append(('bingham.eigenvalues (mapped to 1/(1-kappa))', np.sort(img, axis=-1), -2, False))
     if name in ('vmfmm', 'vmfcacgmm'):
         o.append(('vmf.mean', model.vmf.mean, -2, False))
         o.append(('vmf.concentration', model.vmf.concentration, -1, False))
@@ -96,6 +102,9 @@ def perms_for(rng, K, tier):
 
 
 # ----------------------------------------------------------------------------- cases
+_CCOUNT = [0]
+
+
 def make_case(rng, tier, i, name, aligner=False):
     q = tier == 'quick'
     K = int(rng.integers(2, 5))
@@ -113,6 +122,15 @@ def make_case(rng, tier, i, name, aligner=False):
     data = {k: v for k, v in data.items() if k != 'labels'}
     style = ['positive', 'dirichlet', 'onehot'][int(rng.integers(0, 3))] if name != 'cbmm' else ['positive', 'dirichlet'][int(rng.integers(0, 2))]
     init = mm.make_init(rng, K, N, lead, style)
+    _CCOUNT[0] += 1
+    if _CCOUNT[0] % 4 == 0:
+        # hard masks: boolean / integer typed, overlapping (not one-hot), every class with mass
+        b = rng.random(init.shape) < 0.5
+        b[..., 0, :] |= ~b.any(-2)
+        for k in range(K):
+            b[..., k, k % N] = True
+        init = b if _CCOUNT[0] % 8 == 0 else b.astype(np.int64) * rng.integers(1, 4, size=b.shape)
+        style = 'mask/' + str(init.dtype)
     opts = mm.sample_options(rng, name, K, N, lead, with_aligner=False)
     opts.pop('inline_permutation_alignment', None)
     if name == 'cacgmm' and 'source_activity_mask' not in opts and rng.random() < 0.5:
@@ -130,7 +148,8 @@ def make_case(rng, tier, i, name, aligner=False):
     if name == 'cbmm':
         iters = min(iters, 5 if q else 10)
     rp = {'fn': 'perm', 'model': name, 'data': data, 'init': init, 'opts': opts, 'aligner': bool(aligner and name not in mm.INTEGRATION),
-          'iterations': iters, 'perms': [list(p) for p in perms_for(rng, K, tier)], 'pick': int(rng.integers(0, 2 ** 31))}
+          'iterations': iters, 'perms': [list(p) for p in perms_for(rng, K, tier)], 'pick': int(rng.integers(0, 2 ** 31)),
+          'reuse_trainer': bool(_CCOUNT[0] % 2)}
     label = 'relabel %s K=%d D=%d N=%d lead=%s iters=%d init=%s perms=%d%s opts=%s' % (
         name, K, D, N, lead, iters, style, len(rp['perms']), ' ALIGNER' if aligner else '', mm.describe_options(opts))
     fail, key, coq, raised, nt = eval_perm(rp)
@@ -158,14 +177,14 @@ class TieTap:
         return self.inner.apply_mapping(mask, mapping)
 
 
-def run_fit(name, data, init, opts, iters, aligner):
+def run_fit(name, data, init, opts, iters, aligner, trainer=None):
     """returns (model, trace, smallest score gap met by the inline aligner or inf)"""
     o = dict(opts)
     tap = None
     if aligner:
         tap = TieTap()
         o['inline_permutation_aligner'] = tap
-    m, tr = mm.fit(name, data, init, iterations=iters, **o)
+    m, tr = mm.fit(name, data, init, iterations=iters, trainer=trainer, **o)
     return m, tr, (tap.min_gap if tap is not None else np.inf)
 
 
@@ -205,12 +224,15 @@ def eval_perm(rp):
     al = ' (inline aligner)' if (rp['aligner'] or opts.get('inline_permutation_alignment')) else ''
     alk = ':aligner' if al else ''
 
-    def run(init_, mask_, data_=None):
+    # one trainer object for the whole case (a trainer is routinely used for several fits) or a fresh one per fit
+    shared = mm.trainer_cls(name)() if rp.get('reuse_trainer') else None
+
+    def run(init_, mask_, data_=None, fresh=False):
         data_ = data if data_ is None else data_
         o = dict(opts)
         if mask_ is not None:
             o['source_activity_mask'] = mask_
-        m, tr, gap = run_fit(name, data_, init_, o, iters, rp['aligner'])
+        m, tr, gap = run_fit(name, data_, init_, o, iters, rp['aligner'], trainer=None if fresh else shared)
         p = mm.predict(name, m, data_, **({'source_activity_mask': mask_} if (name == 'cacgmm' and mask_ is not None) else {}))
         return (m, tr, p), gap
     try:
@@ -236,8 +258,10 @@ def eval_perm(rp):
         largest relative deviation of any observable, or None when the perturbed fit raises"""
         if 'v' not in cache:
             pr = np.random.default_rng(rp['pick'] + 1)
-            ip = init + 1e-13 * pr.random(init.shape)
-            ip = ip / ip.sum(-2, keepdims=True)
+            # a boolean / integer typed start keeps its type (and so its values): only the data are perturbed then
+            ip = init if init.dtype.kind in 'biu' else init + 1e-13 * pr.random(init.shape)
+            if init.dtype.kind not in 'biu' and np.allclose(np.asarray(init, float).sum(-2), 1.0):
+                ip = ip / ip.sum(-2, keepdims=True)
             dp = {}
             for kk, vv in data.items():
                 if np.iscomplexobj(vv):
@@ -245,7 +269,7 @@ def eval_perm(rp):
                 else:
                     dp[kk] = vv * (1 + 1e-13 * pr.uniform(-1, 1, vv.shape))
             try:
-                d_ = deviations(name, shape, A, run(ip, mask, dp)[0], list(range(K)))
+                d_ = deviations(name, shape, A, run(ip, mask, dp, fresh=True)[0], list(range(K)))
                 cache['v'] = max(v[1] for v in d_.values())
             except Exception:
                 cache['v'] = None
@@ -327,7 +351,7 @@ def coq_perm(rp, name, data, init, opts, mask, sigma, trA, trB, mA, pB, lead, K,
             use_sal = (sal is not None) or name != 'cacgmm'
             s = np.ones(N) if sal is None else sal[li]
             parts.append('check_weight_perm %s %d %d %s %s %s %s %s %s' % (
-                RT, K - 1, N, core.fmat(init[li]), core.flist(s), core.cbool(use_sal), core.fhex(1e-10), core.nlist(sigma),
+                RT, K - 1, N, core.fmat(np.asarray(init[li], float)), core.flist(s), core.cbool(use_sal), core.fhex(1e-10), core.nlist(sigma),
                 core.flist(wB[li][:, 0])))
     return parts
 
